@@ -48,7 +48,7 @@ MANIFEST = dict(
        "Theorems are about integer coordinates and lifted to rationals by the common-denominator argument (Lemmas/Scale.lean, Lemmas/RatLift.lean); the C++ runs on doubles, the "
        "correspondence uses integer-valued doubles. The two 1e-10 tolerances in upperEnvelope (regenerated inventory) are modelled as exact comparisons. Since /repo de702950 they are RELATIVE to the compared values, so this is sound at every scale on the "
        "generated grids (distinct intersections / partial hypervolumes differ relatively by far more than 1e-10) and the ssp scale classes run over the full range -60..60. Before that repair the tolerances were "
-       "absolute and the code returned sub-optimal subsets below 2^-16 (objective values ~1e-5): finding C13-SSP-ABSTOL (F-C13-5, corpus/C13/f5_ssp_abstol.txt), fixed; on a tree without the repair such inputs are reported under the key C13-SSP-ABSTOL. Scale classes use powers of two only (other factors would "
+       "absolute and the code returned sub-optimal subsets below 2^-16 (objective values ~1e-5): finding C13-SSP-ABSTOL (F-C13-5, corpus/C13/f5_ssp_abstol.txt), fixed; (fixed). Scale classes use powers of two only (other factors would "
        "introduce rounding); hoys/dca/dcb are not scaled. translate/c13_tolerances.py (regex over comment-stripped source) is trusted. Finding C13-SSP-LEXLESS (F-C13-4: comparator `f2 < rhs.f1`, std::sort overflow with > 16 points "
        "of equal first coordinate) is fixed in /repo d62b7243. `stream` is tied and (as far as proved) specified on REACHABLE states only: objectives behind `split` are uncut; "
        "on other states the real stream and the model agree with each other but not with the definition (the median collected for an earlier split objective falls outside "
@@ -365,11 +365,6 @@ def classify(ops, res):
             if p[1] - d["ref"][1] < p[0] - d["ref"][0]: a_type[p[0]] = a_type.get(p[0], 0) + 1
         if len(d["P"]) > 16 and any(c >= 2 for c in a_type.values()):
             return "C13-SSP-LEXLESS:sort-overflow:ssp", f"std::sort with the inconsistent Point::operator< left the vector on {ops}"
-    if op[0] == "ssp" and scale and int(scale[3:]) < -16 and not res.crash:
-        # only inputs below the regime in which the 1e-10 tolerances of upperEnvelope are harmless (corpus/C13/f5_ssp_abstol.txt; the
-        # generator stays at e >= -16): a wrong subset at a scale >= 2^-16 keeps its own key
-        kind = "not-optimal" if any("subset-not-optimal" in o for o in res.oracle) else ("oracle" if res.oracle else "mismatch")
-        return f"C13-SSP-ABSTOL:scale-below-2^-16:{kind}:ssp", f"upperEnvelope's absolute tolerance 1e-10 decides at scale 2^{scale[3:]} on {ops}: impl={res.impl[:1]} model={res.model[:1]}"
     if res.crash:
         m = re.search(r"SUMMARY: \w+: (\S+)[^\n]*? in (?:\w+ )*(?:shark::)?(\w+)|runtime error: ([^\n]*)", res.stderr)
         t = (f"{m.group(1)}@{m.group(2)}" if m.group(1) else m.group(3)) if m else ("timeout" if "TIMEOUT" in res.stderr else "crash")
